@@ -220,7 +220,7 @@ def run_c13(tier, seed, wd, info, verdict):
                 f = dict(site=pl["site"], to=pl["to"], kind=pl["kind"])
                 if pl["site"] not in ("prepare", "execute"):
                     f["from"] = pl["from"]
-                sc = dict(id=sid, ids=list(range(1, n + 1)), n=n, t=t, initiator=init, account="DW/f%d" % k, generate=True, probe=False, faults=[f])
+                sc = dict(id=sid, ids=list(range(1, n + 1)), n=n, t=t, initiator=init, account="DW/f%d" % k, generate=True, probe=pl["kind"] == "dup", faults=[f])
                 scs.append(sc)
                 meta[sid] = sc
         # control: the same generation without fault succeeds
